@@ -12,7 +12,7 @@ use crate::meta::*;
 use crate::proto::{guarded, Sink};
 use crate::rng::Rng;
 use in_toto::crypto::{PublicKey, Signature};
-use in_toto::interchange::DataInterchange;
+use in_toto::interchange::{DataInterchange, Json};
 use in_toto::models::inspection::Inspection;
 use in_toto::models::step::Step;
 use in_toto::models::{LayoutMetadata, LinkMetadata, Metablock, MetadataWrapper};
@@ -257,7 +257,21 @@ fn text_answer<T: Serialize + DeserializeOwned + PartialEq + 'static>(sink: &mut
         return None;
     }
     match in_toto::interchange::JsonPretty::from_slice::<T>(&jp) {
-        Ok(v2) => sink.oracle(v2 == v, "a document changes when written by JsonPretty::to_writer and read again", op),
+        Ok(v2) => {
+            sink.oracle(v2 == v, "a document changes when written by JsonPretty::to_writer and read again", op);
+            // ... and serializing that again yields byte-identical JSON: the value that was read back, and
+            // the same document read once more (equal values held in other map instances)
+            let again = serde_json::from_value::<T>(doc.clone()).ok();
+            for (val, what) in [(Some(v2), "the value read back from it"), (again, "an equal value read from the same document")] {
+                if let Some(val) = val {
+                    let mut jp2: Vec<u8> = Vec::new();
+                    let w = in_toto::interchange::JsonPretty::to_writer(&mut jp2, &val);
+                    sink.oracle(w.is_ok() && jp2 == jp, &format!("JsonPretty::to_writer writes other bytes for {} than for the value itself", what), op);
+                    let (c1, c2) = (Json::canonicalize(&Json::serialize(&v).ok()?).ok(), Json::canonicalize(&Json::serialize(&val).ok()?).ok());
+                    sink.oracle(c1.is_some() && c1 == c2, &format!("the canonical JSON of {} differs from that of the value itself", what), op);
+                }
+            }
+        }
         Err(_) => sink.oracle(false, "the text written by JsonPretty::to_writer is rejected by its reader", op),
     }
     // digest maps and the layout's key table are `HashMap`s: with two or more entries the order in
@@ -593,7 +607,9 @@ pub fn mutate(doc: &Value, r: &mut Rng) -> Value {
                     *x = Value::String(odd_string(s, r));
                 } else if let Value::Number(n) = x {
                     if let Some(i) = n.as_i64() {
-                        *x = json!(i + 1);
+                        *x = json!(i.wrapping_add(1));
+                    } else if let Some(u) = n.as_u64() {
+                        *x = json!(u.wrapping_add(1));
                     }
                 }
             }
